@@ -505,7 +505,8 @@ CHECKS["C19"] = {
               "Storm (TestC19Storm): 2-16 goroutines send through one Client while the server ends the session (Close / FailSession / FinishSession) after every 1-4 messages, 5-120 times per case, "
               "over TCP and TCP+TLS in virtual time and the in-process transport in real time; afterwards the same recovery clauses, and no crash of the process. "
               "Fault kinds also include session envelopes that have no place on an established session (an earlier state, or established once more). "
-              "Fault kinds also: the server stops consuming (its handler waits) and the application sends with 300 ms deadlines until a send is given up half way."),
+              "Fault kinds also: the server stops consuming (its handler waits) and the application sends with 300 ms deadlines until a send is given up half way. "
+              "Plus, in real time over the in-process transport: the server drops the session while 8 of its goroutines are still sending, thousands of times: once the client's receiver has ended the channel never reports an established session again."),
     "note": ("Byte-level faults need a byte stream, so the in-process transport only gets finish/fail/EOF. Real-socket cases run one at a time (CPU time is per process). "
              "The storm's interleavings are the Go scheduler's (GOMAXPROCS varied per shard): the nil-channel crash it found shows in about one of four shards of the quick tier."),
     "technique": "fault enumeration (fault kind x moment x repetition x transport) + rapid fault sequences with recovery / liveness oracles; virtual time with an external spin watchdog, plus real sockets",
@@ -513,6 +514,7 @@ CHECKS["C19"] = {
     "assumptions": TRANSPORT_ASSUMPTIONS,
     "exhaustive_jobs": ["TestC19Enum", "TestC19Real"],
     "jobs": [
+        {"test": "TestC19InprocLateEnvelopes", "kind": "plain", "shards": (1, 4), "timeout": (300, 1500), "gomaxprocs": [16, 8, 16, 4]},
         {"test": "TestC19Replay", "kind": "plain"},
         {"test": "TestC19Enum", "kind": "plain", "shards": 4, "timeout": (300, 1500)},
         {"test": "TestC19Real", "kind": "plain", "timeout": (300, 900), "gomaxprocs": [4]},
